@@ -70,7 +70,7 @@ def inputs(chk):
     keep = []
     for op, pre, t in out:
         if True:
-            if not any(k in t for k in (b"Epoch", b"Revision", b"Relations", b"ABI", b"OS:", b"CPU", b"Filename")) or op not in ("tdoc", "tindex", "tcontrol"):
+            if b"Filename" not in t or op not in ("tdoc", "tindex", "tcontrol"):
                 keep.append((op, pre, t))
     return keep
 
